@@ -44,6 +44,11 @@ def push (o : OrientedCircles) (c : OCircle) : OrientedCircles :=
 def takeCircles (o : OrientedCircles) : List OCircle := o.circles
 end OrientedCircles
 
+/-- an inscribed circle as far as `find_tmax_circle` sees it: an identity and its radius -/
+structure ICircle (α : Type) where
+  id : Nat
+  radius : α
+
 /-- `reverse_inscribed_circles` -/
 def reverseInscribed (l : List OCircle) : List OCircle := l.reverse.map OCircle.reverse
 
